@@ -311,6 +311,15 @@ LoopsBare(t, toks, st, la, fuel) ==
          [] a[1] = "s" -> LET st3 == TLCEval(Append(st, a[2])) IN LoopsBare(t, toks, st3, la + 1, fuel - 1)
          [] OTHER -> FALSE
 
+\* does the table send the automaton round reductions of empty productions on some token?  (no
+\* symbol is popped by such a reduction, so the cycle does not depend on the rest of the stack)
+EpsStep(t, s, tok) == LET a == TAct(t, s, tok) IN
+                      IF a[1] = "r" /\ PLen(a[2]) = 0 THEN TGoto(t, s, Lhs(a[2])) ELSE -1
+RECURSIVE EpsWalk(_, _, _, _)
+EpsWalk(t, s, tok, seen) == IF s < 0 THEN FALSE ELSE IF s \in seen THEN TRUE
+                            ELSE EpsWalk(t, EpsStep(t, s, tok), tok, seen \cup {s})
+EpsCycle(t) == \E s \in 0 .. Len(t.act) - 1, tok \in Tokens : EpsWalk(t, s, tok, {})
+
 RunDevs(t, a, e, run) ==
   IF "panic" \in DOMAIN run /\ run.panic # "HARNESS-LOOP" THEN D("ANY", "parser panicked", run.panic)
   ELSE IF "panic" \in DOMAIN run THEN
@@ -434,7 +443,12 @@ OnHang(e) ==
                (IF ~X.allprod \/ MinCostAlg(Rec[l - 1].costs).status # "ok"
                 THEN D("C17", "KF:cost-nonreturn", "hang") ELSE D("C17", "cost query did not return", 0))
           [] last \in {"table", "parse"} ->
-               (IF X.cyclic THEN D("SKIP", "parse hang on cyclic grammar", 0) ELSE D("ANY", "parse did not return", 0))
+               (IF X.cyclic THEN D("SKIP", "parse hang on cyclic grammar", 0)
+                ELSE IF T.has_conflicts /\ EpsCycle(T)
+                     \* the automaton of this table can cycle through empty reductions by itself (see
+                     \* RunDevs); the killed child cannot tell us which input it was working on
+                     THEN D("C07", "KF:lr-loop-conflicts", 1) \cup D("SKIP", "parse hang on a table whose automaton has a cycle of empty reductions", 0)
+                ELSE D("ANY", "parse did not return", 0))
           [] OTHER -> D("ANY", "construction did not return", last)) IN
   Report(ds) /\ ndev' = ndev + Cardinality(ds)
   /\ UNCHANGED <<inst, C, X, A, T, pg, pvars>>
